@@ -43,6 +43,9 @@ def sym_scalar(x, /, **kw):
 def _detoken(x):
     """placeholder tokens inside (nested) lists of strings -> their symbolic numbers; other numeric strings -> float"""
     if isinstance(x, str):
+        if _is_symtext(x):
+            from . import tokens
+            return tokens.to_float(x)
         if x in S.tokens:
             return S.tokens[x]
         try:
@@ -54,16 +57,20 @@ def _detoken(x):
     return x
 
 
+def _is_symtext(x):
+    return type(x).__name__ in ("Tok", "PH") and type(x).__module__ == "symfl.tokens"
+
+
 def _has_token(x):
     if isinstance(x, str):
-        return x in S.tokens
+        return _is_symtext(x) or x in S.tokens
     if isinstance(x, (list, tuple)):
         return any(_has_token(e) for e in x)
     return False
 
 
 def sym_array(x, *a, **kw):
-    if S.tokens and _has_token(x):
+    if (S.tokens or S.symtext) and _has_token(x):
         x = _detoken(x)
     if _has_sym(x):
         dt = kw.get("dtype")
@@ -78,11 +85,19 @@ sym_array.__name__ = "array"       # Representation.repr_ndarray prints `array._
 sym_scalar.__name__ = "scalar"
 
 
+def fuzzylite_float_type():
+    import fuzzylite
+    return fuzzylite.library.settings.float_type
+
+
 def sym_to_float(x, /):
     if isinstance(x, SymFloat):
         return x
     if isinstance(x, (SymArray,)):
         return tf(x)
+    if isinstance(x, str) and _is_symtext(x):
+        from . import tokens
+        return fuzzylite_float_type()(tokens.to_float(x))
     if isinstance(x, str) and x in S.tokens:
         return S.tokens[x]
     if isinstance(x, (SymInt, SymBool)):
